@@ -157,6 +157,23 @@ fn cmd_check(id: &str, tier: &str) -> i32 {
             },
             threads,
             &move |v: &Violation| known_match(&kn, &pid, v).map(|k| format!("{} {}", k.oracle, k.what)),
+            &|hseed: u64, hrun: u64, secs: u64| {
+                // A run that does not terminate: no tape to shrink, the replay file names the seed
+                let dir = verif_dir().join("replays");
+                let _ = std::fs::create_dir_all(&dir);
+                let path = dir.join(format!("{}-{}-{}-{}.json", p.id, sc.name(), hseed, hrun));
+                let detail = format!("[{}] run {hrun} (seed {hseed}) did not come back within {secs} s of wall-clock time: the code under test loops without yielding", sc.name());
+                let doc = json!({
+                    "property": p.id, "scenario": sc.name(), "seed": hseed, "run": hrun,
+                    "oracle": "run-does-not-terminate", "detail": detail, "tape": [], "by_seed": true,
+                    "trace_hash": "", "trace": [],
+                });
+                let _ = std::fs::write(&path, serde_json::to_string_pretty(&doc).unwrap_or_default());
+                println!("  scenario={} violations=1", sc.name());
+                println!("  oracle=run-does-not-terminate detail={detail}");
+                println!("VIOLATION property={} replay={}", p.id, path.display());
+                std::process::exit(1);
+            },
         );
         total_runs += rep.runs;
         sim_time += rep.sim_time_us;
@@ -322,6 +339,34 @@ fn cmd_replay(path: &Path) -> i32 {
         .unwrap_or_default();
     let p = find_prop(prop);
     let sc = find_scenario(&p, scn);
+    if doc["by_seed"].as_bool().unwrap_or(false) {
+        // A run that did not terminate: re-run from its seed under the same watchdog
+        let secs = std::env::var("VERIF_RUN_TIMEOUT_S").ok().and_then(|v| v.parse::<u64>().ok()).unwrap_or(120);
+        let (tx, rx) = std::sync::mpsc::channel();
+        let prop_s = prop.to_string();
+        let scn_s = scn.to_string();
+        std::thread::Builder::new()
+            .stack_size(256 << 20)
+            .spawn(move || {
+                let p = find_prop(&prop_s);
+                let sc = find_scenario(&p, &scn_s);
+                let r = runner::execute(sc, seed, Tape::generate(seed), false);
+                let _ = tx.send(r.outcome.violations.len());
+            })
+            .unwrap();
+        return match rx.recv_timeout(Duration::from_secs(secs)) {
+            Err(_) => {
+                println!("replay property={prop} scenario={scn} seed={seed}: did not come back within {secs} s");
+                println!("  oracle=run-does-not-terminate");
+                println!("VIOLATION property={prop} replay={}", path.display());
+                1
+            }
+            Ok(n) => {
+                println!("replay property={prop} scenario={scn} seed={seed}: terminated ({n} violations): not reproduced");
+                0
+            }
+        };
+    }
     let r = runner::execute(sc, seed, Tape::replay(tp), true);
     let hash = format!("{:016x}", r.trace_hash);
     println!("replay property={prop} scenario={scn} seed={seed} trace_hash={hash} events={}", r.trace_events);
